@@ -19,7 +19,7 @@ pub struct ListGen<'a> {
     /// (10) no pattern that constrains the tail after a branch that narrowed the field; (12) no branch after
     /// the field is used up.
     pub steer: bool,
-    /// notes/C02-fixes/14 has landed: a BINDER on a narrowed `('list | [])` field may be passed on as a list
+    /// notes/C02-fixes/14 has landed (f168b79): a BINDER on a narrowed `('list | [])` field may be passed on as a list
     pub opt_binder: bool,
     /// the tail bound inside a structured sub-pattern on a `('list | [])` field may be passed on as a list
     /// (open: it is typed `Cons | Nil | []`, see notes/C02-fixes/14 "REMAINS")
@@ -59,7 +59,7 @@ pub struct Fun {
 
 impl<'a> ListGen<'a> {
     pub fn new(r: &'a mut Rng) -> Self {
-        ListGen { r, counter: 0, steer: false, opt_binder: false, opt_tail: false, any_layout: false }
+        ListGen { r, counter: 0, steer: false, opt_binder: true, opt_tail: false, any_layout: false }
     }
 
     fn k(&mut self) -> i64 {
